@@ -76,6 +76,31 @@ Definition rs_tombbody_rows : list (list Z) :=
 Definition rs_gc_rows : list (list Z * list Z) :=
   [ (rs_s2z "relayItems.Entomb", rs_s2z "func() { r.deleteTomb(id) }") ].
 
+(* relayItems.deleteCall, statement by statement (= the model's [items_delete_call]: nothing there
+   -> nothing; an item with another destination relayer or destination-side id than the looked-up
+   one -> nothing; else deleted, its timer released); finishRelayItem is called by Receive and
+   handleNonCallReq with the item THEY looked up (model: IRcvEnq carries the identity of the item
+   IRcvChk holds, after_sent the identity of the caller's own item); the callers of the three
+   delete operations: Entomb's too-many-tombstones Delete(id) and its scheduled deleteTomb(id),
+   finishRelayItem's deleteCall(id, lookedUp) *)
+Definition rs_dcbody_rows : list (list Z) :=
+  [ rs_s2z "item, ok := r.items[id]";
+    rs_s2z "if !ok { r.Unlock() r.logger.WithFields(LogField{""id"", id}).Warn(""Attempted to delete non-existent relay item."") return item, false }";
+    rs_s2z "if item.remapID != lookedUp.remapID || item.destination != lookedUp.destination { r.Unlock() return relayItem{}, false }";
+    rs_s2z "delete(r.items, id)";
+    rs_s2z "if item.tomb { r.tombs-- }";
+    rs_s2z "item.timeout.Release()";
+    rs_s2z "return item, !item.tomb" ].
+
+Definition rs_finish_rows : list (list Z * list Z) :=
+  [ (rs_s2z "Relayer.Receive", rs_s2z "items, id, item");
+    (rs_s2z "Relayer.handleNonCallReq", rs_s2z "items, originalID, item") ].
+
+Definition rs_delete_rows : list (list Z * list Z * list Z) :=
+  [ (rs_s2z "relayItems.Entomb", rs_s2z "Delete", rs_s2z "id");
+    (rs_s2z "relayItems.Entomb", rs_s2z "deleteTomb", rs_s2z "id");
+    (rs_s2z "Relayer.finishRelayItem", rs_s2z "deleteCall", rs_s2z "id, lookedUp") ].
+
 (* ---- meaning of a row of relay_get_sites ---- *)
 
 (* the stopTimeout argument as the boolean passed to items_get; None = not understood *)
